@@ -81,6 +81,7 @@ def seg_module(name, base, wprog, rprog, extra=""):
 
 
 def seg_cfg(name, spec, c, invariants, properties=(), view=None, constraint=None, post=None):
+    constraint = constraint or c.get("constraint")
     t = [f"SPECIFICATION {spec}", "CONSTANTS",
          f" SC = {'TRUE' if c['sc'] else 'FALSE'}", f" W = {c.get('w', 2)}", f" GenMod = {c.get('genmod', 65536)}",
          f" RETRY = {c['retry']}", f" Readers <- {c['readers']}", f" MaxPub = {c['maxpub']}",
@@ -218,7 +219,8 @@ class SegRun:
             files.append(p)
         t0 = time.time()
         with ThreadPoolExecutor(max_workers=procs) as ex:
-            parts = list(ex.map(lambda p: seg_json(["replay", p] + (["--ra"] if ra else [])), files))
+            stop = ["--stop-on", ",".join(sorted(PROPSETS[self.rep.pid]))]
+            parts = list(ex.map(lambda p: seg_json(["replay", p] + stop + (["--ra"] if ra else [])), files))
         res = {"behaviours": 0, "steps": 0, "comparisons": 0, "violations": [], "drifts": [], "errors": []}
         for part in parts:
             for k in ("behaviours", "steps", "comparisons"):
@@ -239,7 +241,8 @@ class SegRun:
     def explore(self, seed, runs, steps, wprog, rprog, w=7, readers=3, crash_pct=3, what="explore"):
         tr = os.path.join(cb.WORK, f"trace_{self.rep.pid}_{seed}.ndjson")
         res = seg_json(["explore", "--seed", str(seed), "--runs", str(runs), "--steps", str(steps), "--w", str(w),
-                        "--readers", str(readers), "--crash-pct", str(crash_pct), "--trace", tr])
+                        "--readers", str(readers), "--crash-pct", str(crash_pct), "--trace", tr,
+                        "--stop-on", ",".join(sorted(PROPSETS[self.rep.pid]))])
         self.take(res, what, "explore")
         self.rep.evaluations += res["runs"]
         self.rep.notes.append(f"{what}: seed {seed}, {res['runs']} runs, {res['steps']} scheduler steps, {res['calls']} snapshot calls, {res['publications']} publications, {res['crashes']} crashes, {res['spins']} spins, {res['events']} events, {res['wall_s']:.1f}s")
@@ -342,6 +345,11 @@ def c02(tier, seed):
         run.replay(b, False, f"SC cover {name}")
     # T: random schedules
     run.explore(seed, 30 if tier == "quick" else 400, 400 if tier == "quick" else 600, wprog, rprog, what="random schedules (W=7, 3 readers)")
+    if tier == "thorough":
+        # the known finding, in the model: with a small modulus TLC finds the in-call wrap by itself
+        cw = dict(sc=True, genmod=8, retry=2, readers="R1", maxpub=8, maxcrash=0, maxinc=1, maxcalls=1, files="SFone")
+        rw = mc(rep, "c02_wrap_finding", cw, wprog, rprog, ["NoTorn"])
+        rep.notes.append(f"model of the known finding (GenMod=8): NoTorn {'violated as expected' if rw.violated else 'NOT violated (unexpected)'}")
     # the known corner of a 16-bit sequence lock
     res = seg_json(["wrap"] + ([] if tier == "thorough" else ["--only", "incall"]), timeout=600)
     run.take(res, "reader suspended inside one snapshot() across n publications", "wrap")
@@ -386,7 +394,8 @@ def c03(tier, seed):
         raise ToolError(f"ShmSeg violates {r.violated} under SC")
     # wrap: small modulus so that the generation repeats within the bound; the documented coincidence is
     # needed (CatchUp's exception is taken) and only ever taken at a multiple of the period
-    cw = dict(sc=True, genmod=8, retry=2, readers="R1", maxpub=8, maxcrash=0, maxinc=1, maxcalls=3, files="SFone")
+    # (no publication while a call is in progress: the in-call wrap is the known finding of C02)
+    cw = dict(sc=True, genmod=8, retry=2, readers="R1", maxpub=8, maxcrash=0, maxinc=1, maxcalls=3, files="SFone", constraint="NoPubDuringCall")
     r = mc(rep, "c03_wrap", cw, wprog, rprog, ["Monotone", "CatchUp", "CoincidenceOnlyAtPeriod", "GenProtocol"])
     if r.violated:
         raise ToolError(f"ShmSeg violates {r.violated} in the wrap configuration")
